@@ -1,0 +1,16 @@
+//go:build verif
+
+package httpapi
+
+import (
+	"net/http"
+
+	"github.com/semafind/semadb/cluster"
+)
+
+// VerifSetupRouter exposes the full middleware and handler stack so that the
+// verification harness can drive requests in-process. Only compiled with the
+// verif build tag.
+func VerifSetupRouter(cnode *cluster.ClusterNode, cfg HttpApiConfig) http.Handler {
+	return setupRouter(cnode, cfg, nil)
+}
